@@ -92,7 +92,7 @@ theorem leaseMs_pos (s : Nat) : 0 < leaseMs s := by unfold leaseMs tolerance; om
 theorem acquireWith_ent (cfg : Nat → LockCfg) (st : St) (i secs : Nat) (k : String) :
     (acquireWith cfg st i secs).1.store.ent k =
       if freeFor st.store (cfg i).key (cfg i).id ∧ k = (cfg i).key
-      then some ⟨(cfg i).id, some (st.store.now + leaseMs secs)⟩ else st.store.ent k := by
+      then some ⟨(cfg i).id, some (st.store.now + leaseMs secs + st.store.grace)⟩ else st.store.ent k := by
   simp only [acquireWith, lockScript_store]
   by_cases hf : freeFor st.store (cfg i).key (cfg i).id
   · by_cases hk : k = (cfg i).key <;> simp [hf, hk, Store.setPX, upd]
@@ -100,6 +100,11 @@ theorem acquireWith_ent (cfg : Nat → LockCfg) (st : St) (i secs : Nat) (k : St
 
 theorem acquireWith_now (cfg : Nat → LockCfg) (st : St) (i secs : Nat) :
     (acquireWith cfg st i secs).1.store.now = st.store.now := by
+  simp only [acquireWith, lockScript_store]
+  split <;> simp [Store.setPX]
+
+theorem acquireWith_grace (cfg : Nat → LockCfg) (st : St) (i secs : Nat) :
+    (acquireWith cfg st i secs).1.store.grace = st.store.grace := by
   simp only [acquireWith, lockScript_store]
   split <;> simp [Store.setPX]
 
@@ -120,6 +125,10 @@ theorem release_ent (cfg : Nat → LockCfg) (st : St) (i : Nat) (k : String) :
 
 theorem release_now (cfg : Nat → LockCfg) (st : St) (i : Nat) :
     (release cfg st i).1.store.now = st.store.now := by
+  simp only [release, delScript_store]; split <;> rfl
+
+theorem release_grace (cfg : Nat → LockCfg) (st : St) (i : Nat) :
+    (release cfg st i).1.store.grace = st.store.grace := by
   simp only [release, delScript_store]; split <;> rfl
 
 theorem release_secs (cfg : Nat → LockCfg) (st : St) (i : Nat) : (release cfg st i).1.secs = st.secs := rfl
